@@ -4,6 +4,9 @@ open Py Lean
 namespace Driver.D_isan
 def handle (fn : String) (args : List Json) : String :=
   match fn with
+  | "compact" => match args with
+    | [a0, a1] => (do let x0 ← Wire.decStr a0; let x1 ← Wire.decBool a1; pure (Wire.respondWith Wire.encStr (Gen.isan.compact x0 x1)) : Option String).getD "badargs"
+    | _ => "badargs"
   | "format" => match args with
     | [a0, a1, a2, a3] => (do let x0 ← Wire.decStr a0; let x1 ← Wire.decStr a1; let x2 ← Wire.decBool a2; let x3 ← Wire.decBool a3; pure (Wire.respondWith Wire.encStr (Gen.isan.format x0 x1 x2 x3)) : Option String).getD "badargs"
     | _ => "badargs"
